@@ -1,4 +1,5 @@
-//! Catalogue of the 21 shipped heuristic templates x valid parameter sets x harness instances.
+//! Catalogue of the 21 shipped heuristic templates x valid parameter sets x harness instances,
+//! plus two assemblies of the generic `ga::ga` / `es::es` loops with other shipped components.
 //!
 //! "Valid" is fixed here from the documentation and the constructors' own checks (DESIGN.md §6 C16),
 //! so that no monitor judges a run the template does not promise.
@@ -34,9 +35,13 @@ pub enum Tmpl {
     Cro,
     AntSystem,
     Mmas,
+    /// not one of the 21 constructors: the generic `ga::ga` loop assembled with other shipped components than `real_ga` picks
+    GaGeneric,
+    /// the generic `es::es` loop assembled with other shipped components than `real_mu_plus_lambda_es` picks
+    EsGeneric,
 }
 
-pub const ALL_TEMPLATES: [Tmpl; 21] = [
+pub const ALL_TEMPLATES: [Tmpl; 23] = [
     Tmpl::GaReal,
     Tmpl::GaBinary,
     Tmpl::Es,
@@ -58,14 +63,16 @@ pub const ALL_TEMPLATES: [Tmpl; 21] = [
     Tmpl::Cro,
     Tmpl::AntSystem,
     Tmpl::Mmas,
+    Tmpl::GaGeneric,
+    Tmpl::EsGeneric,
 ];
 
 impl Tmpl {
     pub fn n_param_sets(self) -> usize {
         match self {
             Tmpl::RsReal | Tmpl::RsPerm => 1,
-            Tmpl::De => 6,
-            Tmpl::GaReal | Tmpl::Pso | Tmpl::Iwo | Tmpl::Fa | Tmpl::Bh | Tmpl::Cro | Tmpl::AntSystem => 4,
+            Tmpl::De | Tmpl::Iwo => 6,
+            Tmpl::GaGeneric | Tmpl::EsGeneric | Tmpl::GaReal | Tmpl::Pso | Tmpl::Fa | Tmpl::Bh | Tmpl::Cro | Tmpl::AntSystem | Tmpl::Es | Tmpl::LsReal | Tmpl::LsPerm => 4,
             _ => 3,
         }
     }
@@ -188,6 +195,89 @@ pub fn dispatch<V: TemplateVisitor>(case: &Case, v: &mut V, on_ctor_error: &mut 
             meta.pop = PopBound::Exactly(population_size as usize);
             go!(real_instance(inst), ga::real_ga(ga::RealProblemParameters { population_size, tournament_size, pm, deviation, pc }, cond::<Real>(n, with_optimum)))
         }
+        Tmpl::GaGeneric => {
+            use mahf::components::{archive, boundary, initialization, mutation, recombination, replacement, selection};
+            use mahf::identifier::Global;
+            let p = real_instance(inst);
+            // (population, selection, crossover, pm, mutation, constraints, archive, replacement): combinations in which
+            // every operator gets an input it documents as valid in every generation
+            let k = pset % 4;
+            let population_size = [6u32, 4, 7, 5][k];
+            let selection = match k {
+                0 => selection::FullyRandom::new(population_size),
+                1 => selection::LinearRank::new(population_size),
+                2 => selection::RandomWithoutRepetition::new(5),
+                _ => selection::Tournament::new(population_size, 3),
+            };
+            let crossover = match k {
+                0 => recombination::UniformCrossover::new_insert_both(0.8),
+                1 => recombination::NPointCrossover::new(1, 1.0, false),
+                2 => recombination::ArithmeticCrossover::new_insert_both(0.5),
+                _ => recombination::UniformCrossover::new_insert_both(0.0),
+            };
+            let pm = [1.0, 0.5, 0.0, 1.0][k];
+            let mutation = match k {
+                1 => mutation::UniformMutation::new(0.2, 1.0),
+                _ => mutation::NormalMutation::new_dev(0.1),
+            };
+            let constraints = match k {
+                1 => boundary::Mirror::new(),
+                2 => boundary::Toroidal::new(),
+                _ => boundary::Saturation::new(),
+            };
+            let archive = if k == 1 { Some(archive::ElitistArchiveUpdate::new(2)) } else { None };
+            // replacements that do NOT keep all evaluated offspring: whatever is dropped must have been seen by the best-so-far memory
+            let replacement = match k {
+                0 | 3 => replacement::RandomReplacement::new(population_size),
+                _ => replacement::MuPlusLambda::new(population_size),
+            };
+            meta.params = format!("generic ga: population_size={population_size} combination#{k} (selection/crossover/mutation/constraints/archive/replacement varied)");
+            meta.instance = real_instance_desc(inst);
+            meta.pop = PopBound::Exactly(population_size as usize);
+            let cfg: mahf::ExecResult<Configuration<Real>> = Ok(Configuration::builder()
+                .do_(initialization::RandomSpread::new(population_size))
+                .evaluate()
+                .update_best_individual()
+                .do_(ga::ga::<Real, Global>(ga::Parameters { selection, crossover, pm, mutation, constraints, archive, replacement }, cond::<Real>(n, with_optimum)))
+                .build());
+            go!(p, cfg)
+        }
+        Tmpl::EsGeneric => {
+            use mahf::components::{archive, boundary, initialization, mutation, replacement, selection};
+            use mahf::identifier::Global;
+            let p = real_instance(inst);
+            let k = pset % 4;
+            let (mu, lambda) = [(4u32, 6u32), (3, 3), (5, 2), (2, 7)][k];
+            let selection = match k {
+                0 => selection::FullyRandom::new(lambda),
+                1 => selection::RandomWithoutRepetition::new(lambda),
+                2 => selection::Tournament::new(lambda, 2),
+                _ => selection::ExponentialRank::new(lambda, 0.7).unwrap(),
+            };
+            let mutation = if k == 2 { mutation::UniformMutation::new(0.3, 1.0) } else { mutation::NormalMutation::new_dev(0.2) };
+            let constraints = match k {
+                0 => boundary::Toroidal::new(),
+                1 => boundary::Mirror::new(),
+                _ => boundary::Saturation::new(),
+            };
+            let archive = if k == 3 { Some(archive::ElitistArchiveUpdate::new(3)) } else { None };
+            let replacement = match k {
+                0 | 2 => replacement::RandomReplacement::new(mu),
+                1 => replacement::Generational::new(mu),
+                _ => replacement::MuPlusLambda::new(mu),
+            };
+            meta.params = format!("generic es: mu={mu} lambda={lambda} combination#{k} (selection/mutation/constraints/archive/replacement varied)");
+            meta.instance = real_instance_desc(inst);
+            // (mu, comma-like) Generational keeps min(mu, lambda) offspring
+            meta.pop = if k == 1 { PopBound::AtMost(mu as usize) } else { PopBound::Exactly(mu as usize) };
+            let cfg: mahf::ExecResult<Configuration<Real>> = Ok(Configuration::builder()
+                .do_(initialization::RandomSpread::new(mu))
+                .evaluate()
+                .update_best_individual()
+                .do_(es::es::<Real, Global>(es::Parameters { selection, mutation, constraints, archive, replacement }, cond::<Real>(n, with_optimum)))
+                .build());
+            go!(p, cfg)
+        }
         Tmpl::GaBinary => {
             let sets = [(6u32, 2u32, 0.1, 0.8, 1.0), (3, 3, 0.5, 0.0, 0.5), (8, 1, 0.0, 1.0, 0.0)];
             let (population_size, tournament_size, rm, pc, pm) = sets[pset % sets.len()];
@@ -198,7 +288,8 @@ pub fn dispatch<V: TemplateVisitor>(case: &Case, v: &mut V, on_ctor_error: &mut 
             go!(Bits::new(dim, f), ga::binary_ga(ga::BinaryProblemParameters { population_size, tournament_size, rm, pc, pm }, cond::<Bits>(n, with_optimum)))
         }
         Tmpl::Es => {
-            let sets = [(4u32, 8u32, 0.1), (1, 1, 1.0), (5, 2, 0.01)];
+            // (3, 0): no offspring at all - the empty offspring population still goes through evaluation and replacement
+            let sets = [(4u32, 8u32, 0.1), (1, 1, 1.0), (5, 2, 0.01), (3, 0, 0.1)];
             let (population_size, lambda, deviation) = sets[pset % sets.len()];
             meta.params = format!("mu={population_size} lambda={lambda} deviation={deviation}");
             meta.instance = real_instance_desc(inst);
@@ -240,7 +331,7 @@ pub fn dispatch<V: TemplateVisitor>(case: &Case, v: &mut V, on_ctor_error: &mut 
             go!(Perm::new(dim), sa::permutation_sa(sa::PermutationProblemParameters { t_0, alpha, num_swap }, cond::<Perm>(n, with_optimum)))
         }
         Tmpl::LsReal => {
-            let sets = [(1u32, 0.1), (5, 1.0), (3, 0.01)];
+            let sets = [(1u32, 0.1), (5, 1.0), (3, 0.01), (0, 0.1)];
             let (n_neighbors, deviation) = sets[pset % sets.len()];
             meta.params = format!("n_neighbors={n_neighbors} deviation={deviation}");
             meta.instance = real_instance_desc(inst);
@@ -248,7 +339,7 @@ pub fn dispatch<V: TemplateVisitor>(case: &Case, v: &mut V, on_ctor_error: &mut 
         }
         Tmpl::LsPerm => {
             let dim = PERM_DIMS[inst % PERM_DIMS.len()];
-            let sets = [(1u32, 2u32), (4, dim as u32), (3, 3)];
+            let sets = [(1u32, 2u32), (4, dim as u32), (3, 3), (0, 2)];
             let (num_neighbors, num_swap) = sets[pset % sets.len()];
             meta.params = format!("num_neighbors={num_neighbors} num_swap={num_swap}");
             meta.instance = format!("Perm{{dim:{dim}}}");
@@ -308,7 +399,7 @@ pub fn dispatch<V: TemplateVisitor>(case: &Case, v: &mut V, on_ctor_error: &mut 
             go!(Perm::new(dim), rw::permutation_random_walk(rw::PermutationProblemParameters { num_swap }, cond::<Perm>(n, with_optimum)))
         }
         Tmpl::Iwo => {
-            let sets = [(4u32, 10u32, 0u32, 3u32, 0.01, 0.5, 3u32), (1, 1, 1, 1, 0.1, 0.2, 1), (5, 5, 0, 5, 0.001, 1.0, 2), (3, 8, 2, 2, 0.05, 0.06, 4)];
+            let sets = [(4u32, 10u32, 0u32, 3u32, 0.01, 0.5, 3u32), (1, 1, 1, 1, 0.1, 0.2, 1), (5, 5, 0, 5, 0.001, 1.0, 2), (3, 8, 2, 2, 0.05, 0.06, 4), (3, 6, 0, 1, 0.01, 0.5, 2), (2, 4, 0, 0, 0.01, 0.5, 2)];
             let (initial_population_size, max_population_size, min_number_of_seeds, max_number_of_seeds, initial_deviation, final_deviation, modulation_index) = sets[pset % sets.len()];
             // IWO documents that it does not work with infinite objective values
             let inst = if real_instance_is_finite(inst) { inst } else { inst + 1 };
